@@ -3,9 +3,11 @@ package main
 import (
 	"fmt"
 	"math/rand"
+	"os"
 	"path/filepath"
 	"sort"
 	"strings"
+	"time"
 
 	"github.com/onflow/atree"
 
@@ -89,6 +91,27 @@ func (e *storEnv) violation(prop, what string) {
 	e.st.Violations = append(e.st.Violations, hx.Violation{
 		Property: prop, Stream: e.st.Stream, Seed: e.cfg.Seed, Program: e.prog, Step: e.step, What: what, Trace: e.w.Path, Line: e.w.Lines,
 	})
+}
+
+// guard runs a call into the library that starts worker goroutines under a watchdog: a commit or
+// preload that never returns (workers blocked on a full result queue while the caller waits for
+// them) would otherwise hang the stream; in a -race build the runtime does not report the deadlock.
+func (e *storEnv) guard(what string, f func() error) error {
+	done := make(chan error, 1)
+	go func() { done <- f() }()
+	select {
+	case err := <-done:
+		return err
+	case <-time.After(20 * time.Second):
+		for _, p := range []string{"C16", "C14"} {
+			e.violation(p, what+" did not return within 20 s (hang)")
+		}
+		e.w.Close()
+		e.st.TraceFiles = nil // the trace ends mid-operation: nothing to replay
+		e.st.Emit()
+		os.Exit(0)
+		return nil
+	}
 }
 
 func (e *storEnv) regVer(b []byte) int {
@@ -314,7 +337,7 @@ func runStorageProgram(e *storEnv, nOps int, p int) string {
 				break
 			}
 			w.L("ST preload ids=%s workers=%d", strings.Join(idStrs(ids), ","), workers)
-			err := e.ps.BatchPreload(ids, workers)
+			err := e.guard(fmt.Sprintf("BatchPreload of %d identifiers, %d workers", len(ids), workers), func() error { return e.ps.BatchPreload(ids, workers) })
 			w.L("OBS %s", obsErr(err))
 			sig.WriteByte('p')
 		case r < 93:
@@ -515,7 +538,7 @@ func (e *storEnv) failingPreload(ids []atree.SlabID, workers int) {
 	e.w.L("ST failpreload ids=%s workers=%d fail=%s", strings.Join(idStrs(ids), ","), workers, hx.IDStr(fail))
 	before := e.snap()
 	e.ledger.ReadFail[fail] = true
-	err := e.ps.BatchPreload(ids, workers)
+	err := e.guard(fmt.Sprintf("BatchPreload of %d identifiers, %d workers, with a failing ledger read", len(ids), workers), func() error { return e.ps.BatchPreload(ids, workers) })
 	delete(e.ledger.ReadFail, fail)
 	e.w.L("OBS %s", obsErr(err))
 	what := fmt.Sprintf("BatchPreload of %d identifiers with a failing ledger read", len(ids))
@@ -591,12 +614,12 @@ func (e *storEnv) commit(sig *strings.Builder) {
 	for i, f := range faults {
 		fs[i] = fmt.Sprintf("%d", f)
 	}
-	var err error
-	if kind == "det" {
-		err = e.ps.FastCommit(workers)
-	} else {
-		err = e.ps.NondeterministicFastCommit(workers)
-	}
+	err := e.guard(fmt.Sprintf("commit kind=%s workers=%d with %d owned pending entries", kind, workers, pendingOwned), func() error {
+		if kind == "det" {
+			return e.ps.FastCommit(workers)
+		}
+		return e.ps.NondeterministicFastCommit(workers)
+	})
 	var logParts, mo, dlo []string
 	for _, c := range e.ledger.Log {
 		s := ""
